@@ -140,7 +140,7 @@ def support(ctx, cname):
     want = atom(("call", "int", (atom(("call", "floor", (atom(("call", "sqrt", (A("reference_n"),), ())),), ())),), ()))
     for m in ("update", "reset"):
         t2 = upd(ctx, cname) if m == "update" else ctx.trace(cname, "reset", assume={"detect_batch": 3})
-        sts = [e for e in t2.stores("_bins") if e.func.name == m]
+        sts = [e for e in t2.stores("_bins") if e.func.name == m or q.stack_has(e, "%s.%s" % (HDMQ, m))]
         ctx.ob("ROLE", "%s.%s" % (HDMQ, m), "_bins stored [%s]" % cname, len(sts) >= 1, "")
         for e in sts:
             rn = None
@@ -273,16 +273,13 @@ def threshold(ctx, cname):
                 arg = e.args[0]
                 sm = [a for a in T.atoms_of(arg, "call") if a[1] == "sum"]
                 if len(sm) == 1 and T.same(arg, atom(sm[0]) / d):
-                    comp = sm[0][2][0].single_atom()
-                    if comp is not None and comp[0] == "comp":
-                        elt = comp[2][0]
-                        it = comp[3][0].single_atom()
-                        ix = [a for a in T.atoms_of(elt, "idx")]
-                        if ix and it is not None and it[0] == "call" and it[1] == "range" and tuple(it[2]) == (atom(("call", "len", (eps,), ())) - const(1),):
-                            want = (q.sub(eps, atom(ix[0])) - ehat) ** 2
-                            if T.same(elt, want):
-                                okd = True
-                                sdv = e.result
+                    cv = q.comp_view(sm[0][2][0])
+                    if cv is not None:
+                        elt, seq, count = cv
+                        # every earlier epsilon of the epoch (all but the one just appended), whichever way they are enumerated
+                        if seq == eps and T.same(count, atom(("call", "len", (eps,), ())) - const(1)) and T.same(elt, (q.ELEM - ehat) ** 2):
+                            okd = True
+                            sdv = e.result
             ctx.ob("FRM", site, "deviation = sqrt(sum (eps_i - eps_hat)^2 / n) over the earlier epsilons [%s,%s]" % (cname, stat), okd, "")
             if sdv is None:
                 continue
